@@ -101,8 +101,8 @@ def c10(chk):
               "TenantTables": {fs(), fs("t1"), fs("t1", "t2")}, "TenantHdrs": {"", "t1", "t2", "tx"},
               "SignedFor": {"default", "t1", "t2"}})
     model(chk, "C10-table", c, C10_INV)
-    v, st = engine.run(chk, "aeng", {"c10": True}, "requests", "TraceAuth", trace_consts(), TRACE_INV, "aeng-trace",
-                       what="the real protected ports", strip=("c10",))
+    v, st = engine.run(chk, "aeng", {"c10": True, "deep": chk.tier != "quick"}, "requests", "TraceAuth",
+                       trace_consts(), TRACE_INV, "aeng-trace", what="the real protected ports", strip=("c10",))
     chk.notes["executed_calls_by_action"] = st.get("by_op")
     chk.nontrivial = st.get("distinct_outcomes", 0)
     chk.rule += "; distinct_nontrivial = distinct (port, status, served) outcomes observed"
